@@ -89,7 +89,7 @@ PROPS = {
         "TestC02", "exploration",
         "read: case = (ground-truth WebVTT model, rendering); model = optional X-TIMESTAMP-MAP, 0..3 STYLE blocks, 0..3 regions (subset of 5 attributes), 0..8 cues (1 in 30: 40..100) with optional numeric id, 0..3 comment lines, cue-settings subset, region reference, 1..3 lines with optional voice and 1..4 runs; run = tag stack of depth 0..3 over {b,i,u,c,lang,ruby,rt} with 0..2 classes and optional annotation (consecutive stacks share a prefix: proper nesting, incl. same name with different classes / parent), optional inline timestamp, Unicode text classes; "
         "rendering = EOL kinds, BOM, header tail, mm:ss.ttt vs hh:mm:ss.ttt, ids present/absent, tab/space before settings, setting and region-key permutations, regions in the header or right before first use, NOTE blocks split or joined, tags closed per line or carried to the next line, minimal transition or close-all/reopen, unterminated at cue end, </v> present/absent, blank-line counts, final EOL. "
-        "write: the model converted to the public types (each STYLE block its own style definition, cues with a region but no inline style included). Non-trivial = >=1 cue and >=1 feature label; distinct = hash of the rendered bytes (read) / model (write).",
+        "One read case in three turns runs that sit between two differently tagged runs, inside an open tag, into a single blank. write: the model converted to the public types (each STYLE block its own style definition, cues with a region but no inline style included). Non-trivial = >=1 cue and >=1 feature label; distinct = hash of the rendered bytes (read) / model (write).",
         ["N1-N3 of DESIGN.md; cue text / comment / CSS lines do not begin with NOTE, STYLE, 'Region: ', X-TIMESTAMP-MAP and contain no '-->'; one voice per line, voice tag first; numeric identifiers; an inline timestamp is written directly before the text it marks",
          "STYLE blocks coming from distinct style definitions may be written in any block order (C19 decides determinism)",
          "the independent WebVTT decoder in c02_indep_test.go implements the library's documented dialect (old-style 'Region:' lines)"],
@@ -136,7 +136,7 @@ PROPS = {
     "C06": P(
         "TestC06", "exploration",
         "case = ground-truth page schedule x multiplexing x reader options; schedule = selected page M/TU (decimal digits, magazine 1..8), 1..5 instances with increasing PTS (some erase-only), 1..4 rows at distinct rows 1..24, row = colour/size codes before the start box, boxed segments that begin where a colour (0..7) or size (0x0c..0x0f) code changes state, text over G0 incl. the 13 national-option positions, national option C12-C14 per instance (7 Latin sub-sets), parity errors injected in text cells; "
-        "header control bits C7-C10 and page sub-code vary per instance; multiplexing = serial or parallel magazine mode, interleaved page of another magazine (parallel), same page number in another magazine, terminating page of the same magazine (or any magazine in serial mode) with its own rows, page with hexadecimal digits aliasing tens*10+units, 0xFF time-filling headers, stuffing and non-subtitle data units carrying look-alike packets, X/26 X/27 8/30 and other magazines' X/28 M/29, instance split over two PES packets, a second teletext PID with the same page, non-teletext streams first in the PMT, PAT/PMT repeated, PES before the first instance / after the last one moving the time origin; reader options page and PID given or detected. "
+        "header control bits C7-C10 and page sub-code vary per instance; PES data identifier 0x10..0x1f; multiplexing = serial or parallel magazine mode, interleaved page of another magazine (parallel), same page number in another magazine, terminating page of the same magazine (or any magazine in serial mode) with its own rows, page with hexadecimal digits aliasing tens*10+units, 0xFF time-filling headers, stuffing and non-subtitle data units carrying look-alike packets, X/26 X/27 8/30 and other magazines' X/28 M/29, instance split over two PES packets, a second teletext PID with the same page, non-teletext streams first in the PMT, PAT/PMT repeated, PES before the first instance / after the last one moving the time origin; reader options page and PID given or detected. "
         "Non-trivial = every stream with >=1 instance (labels record the classes); distinct = hash of the case.",
         ["encoder written from ETS 300 706 / EN 300 472 / ISO 13818-1 in the harness (Hamming 8/4 from the parity equations, odd parity, CRC-32/MPEG); national sub-sets typed from table 36, where the standard has arrows/bars (5 glyphs) the de-facto telxcc approximations are accepted too",
          "rows of the selected page directly follow its header (before any terminating header); no row number is repeated within an instance; every row has boxed text; X/28 and M/29 of the selected magazine are C08's subject",
@@ -169,7 +169,7 @@ PROPS = {
         "TestC17", "exploration",
         "case = (format, document bytes, delivery schedule = list of chunk sizes incl. zero-length reads, data-together-with-EOF flag, seekable flag for the transport-stream reader, reader options). Documents: the repository's test inputs, documents rendered from the C01-C06 models, CRLF-converted and truncated variants; random cases also cut / bit-flip them (invalid documents). "
         "Schedules: every single split point of every document <= 4-6 KiB (exhaustive, every 7th also with data+EOF), one-byte reads, halves, zero-length reads, 150 KB CRLF documents split at 4096/8192/65536/131072 +-2 and read in chunks of 4090..4100 bytes, random chunk lists drawn from sizes around 1, 128, 188, 1024, 4096. "
-        "Standard-library readers are deliveries too: bytes.Buffer, bufio.Reader at its default size and with 16-, 100- and 1000-byte buffers, bytes.Reader / strings.Reader, a seekable reader positioned after other content. Oracle: canonical dump of (result | ERROR | PANIC) equals the dump under the all-at-once schedule. Non-trivial = the split falls inside a CR LF pair, a multi-byte rune, an XML document, a 128/1024-byte block or a 188-byte packet (splits), every one-byte/buffer-boundary/random schedule on a non-empty document; distinct = hash of (document, schedule).",
+        "Standard-library readers are deliveries too: bytes.Buffer, bufio.Reader at its default size and with 16-, 100- and 1000-byte buffers, bytes.Reader / strings.Reader, a seekable reader positioned after other content. Documents in a single-byte encoding (a lone lead byte, a truncated two-byte form, a mix) are among the enumerated ones. Oracle: canonical dump of (result | ERROR | PANIC) equals the dump under the all-at-once schedule. Non-trivial = the split falls inside a CR LF pair, a multi-byte rune, an XML document, a 128/1024-byte block or a 188-byte packet (splits), every one-byte/buffer-boundary/random schedule on a non-empty document; distinct = hash of (document, schedule).",
         ["at most 3 consecutive zero-length reads (io.Reader discourages them; bufio gives up after 100)",
          "non-seekable transport-stream readers are compared with a non-seekable reference (the demultiplexer legitimately skips the packets it used for packet-size detection when it cannot rewind)"],
         shards=(6, 16), technique="differential testing over generated delivery schedules: harness-controlled io.Reader wrappers, exhaustive single-split enumeration, result compared with the reference schedule through a canonical pointer-following dump",
@@ -190,7 +190,7 @@ PROPS = {
     "C19": P(
         "TestC19", "exploration",
         "case = (heterogeneous cue list over the public types, permutation of the five writers); list = metadata mixing SSA / STL (dates present or not) / TTML / WebVTT fields, 0..6 styles with random subsets of the 23 SSA attributes, TTML attributes, WebVTT style lines and parent links, 0..3 regions, 1..5 cues with style / region references, cue settings, SSA event fields, STL justification / position, 1..3 lines of 1..3 runs carrying SRT flags, WebVTT tag stacks, TTML attributes, STL flags, SSA override blocks, inline timestamps. "
-        "Per case: 50 in-process writes per format (alternating the same list and a freshly built one), the five writers in the drawn order, two different clock instants; a batch of the cases is re-written in 4 (thorough 8) fresh processes and compared by hash. Between two writes the process reads documents of every format (TTML under eleven xml:lang spellings, the repository samples); seven fixed lists in languages with and without a constant are written before anything else. Non-trivial = >=2 styles AND (SSA styles with different attribute sets OR WebVTT style lines over several styles); distinct = hash of the case.",
+        "Per case: 50 in-process writes per format (alternating the same list and a freshly built one), the five writers in the drawn order, two different clock instants; a batch of the cases is re-written in 4 (thorough 8) fresh processes and compared by hash. Between two writes the process reads documents of every format (TTML under eleven xml:lang spellings, the repository samples); seven fixed lists in languages with and without a constant are written before anything else. Regions, styles, cues and runs without inline attributes (nil): eight fixed lists and one random list in four. Non-trivial = >=2 styles AND (SSA styles with different attribute sets OR WebVTT style lines over several styles); distinct = hash of the case.",
         ["a writer that returns an error must return the same error every time (compared as output)",
          "STL: bytes 224..236 of the GSI block (creation / revision date) may depend on the injectable clock when the metadata does not supply both dates; nothing else may"],
         shards=(4, 16), technique="metamorphic / differential property testing: repeated writes in-process and in fresh processes compared byte for byte, writer-order permutations, clock variation, canonical pointer-preserving dump of the input before/after every write",
